@@ -290,6 +290,12 @@ PROPS["C05"]["mc"] = {
     "quick": DIGIT_Q + [alg("MC_DigitAlgs.tla", "MC_DigitAlgs_mask_2_3.cfg", expect_violation="RotMaskOK")],
     "thorough": DIGIT_T + [alg("MC_DigitAlgs.tla", "MC_DigitAlgs_mask_2_3.cfg", expect_violation="RotMaskOK"), alg("MC_DigitAlgs.tla", "MC_DigitAlgs_mask_2_4.cfg")],
 }
+RADIX_Q = [alg("MC_RadixAlgs.tla", "MC_RadixAlgs_4_2.cfg"), alg("MC_RadixAlgs.tla", "MC_RadixAlgs_old_4_2.cfg", expect_violation="ParseOldOK")]
+RADIX_T = RADIX_Q + [alg("MC_RadixAlgs.tla", "MC_RadixAlgs_8_1.cfg")]
+PROPS["C10"]["mc"] = {"quick": list(RADIX_Q), "thorough": list(RADIX_T)}
+PROPS["C11"]["mc"] = {"quick": [RADIX_Q[0]], "thorough": [RADIX_T[0], RADIX_T[2]]}
+PROPS["C18"]["mc"] = {"quick": [alg("NumAlgs.tla", "NumAlgs_fixed.cfg"), alg("NumAlgs.tla", "NumAlgs_old.cfg", expect_violation="NoOverflow")],
+                      "thorough": [alg("NumAlgs.tla", "NumAlgs_fixed.cfg"), alg("NumAlgs.tla", "NumAlgs_fixed9.cfg", workers=10), alg("NumAlgs.tla", "NumAlgs_old.cfg", expect_violation="NoOverflow")]}
 L2MC = {"dir": "mc", "module": "MC_L2.tla", "cfg": "MC_L2_b4.cfg", "workers": 6, "timeout": 3000}
 
 BEH_MODES = ["debug", "release"]
